@@ -11,7 +11,8 @@ R-C24.3   nested `with` blocks combine the enclosing context's flags: `visit_Wit
           pairs with one and two items -- the body is built under exactly enclosing | own (c24_with.py).
 R-C24.4   dagger restrictions: `check_invalid_under_dagger` interpreted on 24 bodies x 8 flag sets (loops, the three assignment
           kinds, nested in `if` / nested functions): rejected iff Dagger is set and such a statement is found (c24_dagger.py);
-          the per-block pass rejects assignments and subscripted places iff Dagger is set.
+          the per-block pass (`_check_assign`, `visit_PlaceNode` interpreted on all flag sets) rejects assignments and subscripted
+          places iff Dagger is set and otherwise visits the assigned value.
 R-C24.5   compiled functions record their flags (must-call add_unitarity_metadata).
 R-C24.6   the qubit finder never prunes the descent into a type.
 R-C24.8   a non-acceptable call nested in the arguments (any position, next to qubit or classical arguments) or in the callee
@@ -21,6 +22,8 @@ R-C24.7   flag plumbing: decorator kwargs -> definition -> CFG -> unitary pass.
 """
 
 from __future__ import annotations
+
+import itertools
 
 import ast
 
@@ -315,20 +318,36 @@ def run(ctx: Ctx) -> None:
             raise AnalysisError(f"BBUnitaryChecker.{meth} vanished")
         bad = []
         und = None
+        from ..absint.astmodel import VisitorEval
+        from ..absint.pyeval import Raised as _Raised, Tok as _Tok
+        ps_ = [a.arg for a in f.node.args.args]
         for F in dom.all_values():
-            for sub in ((False, True) if extra_atom else (True,)):
-                env = {"self.flags": F}
+            for sub, has_value in itertools.product((False, True) if extra_atom else (True,), (True, False) if meth == "_check_assign" else (True,)):
+                visited: list = []
+                value = _Tok("rhs", __ident__=1)
+                me_ = _Tok("checker", flags=F, __classes__=checker.mro(), __ident__=1)
+                me_.attrs["__methods__"] = {"visit": lambda r, a, visited=visited: visited.append(a[0])}
+                nd_ = _Tok("node", value=value if has_value else None, place=_Tok("place"), __ident__=1)
+                env = {ps_[0]: me_, ps_[1]: nd_, "InvalidUnderDagger": lambda node, e, en: _Tok("InvalidUnderDagger"), "UnsupportedError": lambda node, e, en: _Tok("UnsupportedError")}
                 if extra_atom:
-                    env[extra_atom] = lambda node, e, en, sub=sub: sub
+                    env[extra_atom] = lambda node, e, en, sub=sub: (_Tok("subscript", __truth__=True) if sub else None)
                 try:
-                    out = ev.run(f.node.body, env)
+                    try:
+                        out = VisitorEval(idx, f.module.name, flags=dom).run(f.node.body, env)
+                    except _Raised as e:
+                        out = ("raise", e.cls or str(e))
                 except Unsupported as e:
                     und = str(e)
                     break
                 raised = out[0] == "raise"
                 want_raise = bool(F.bits & D) and sub
-                if raised != want_raise:
+                if raised != want_raise or (raised and "GuppyError" not in str(out[1])):
                     bad.append({"flags": F.bits, "subscript": sub, "raises": raised, "should_raise": want_raise})
+                elif not raised and meth == "_check_assign" and visited != ([value] if has_value else []):
+                    bad.append({"flags": F.bits, "assigned_value_present": has_value, "value_visited": bool(visited),
+                                "problem": "the assigned value is not visited: calls on the right-hand side escape the flag check"})
+            if und:
+                break
         key = f"{f.qualname}#raises-iff-dagger"
         if und:
             ctx.undecided("R-C24.4", key, f.where, und)
